@@ -35,6 +35,7 @@ RULE += ' added since: legacy and wide source encodings (utf-16/32) on file path
 ASSUMPTIONS = ["mako-render is driven without --output-encoding (it crashes with that option, outside the statement)",
                "context values are strings so that the command line can pass them"]
 MIN_NONTRIVIAL = 100
+RULE += " defs printing the order of context.keys() for names assigned in the body, across hash seeds."
 RULE += " mako-render started inside the template directory (bare name, ./name, standard input, --template-dir .) for a template that inherits, includes and uses a namespace."
 REQUIRED_COUNTERS = ["templates", "paths_compared", "hash_seed_children", "cmdline_runs", "get_def_compared", "module_template_renders", "lookup_variants", "source_checks", "inheriting_get_def_compared", "preprocessor_paths_compared", "lookup_option_routes", "cmdline_directory_routes"]
 SHARDS = {"quick": 16, "thorough": 32}
@@ -74,6 +75,13 @@ def gen_setorder(r, strict=False):
         used = used + missing
         r.shuffle(used)
     parts.append("BODY[" + "|".join("${%s}" % n for n in used) + "]")
+    if not strict and r.random() < 0.6:
+        # names assigned in the body are handed on to the defs called by name: the order in which a def finds them
+        # in its context (context.keys()) is part of what it can print
+        lv = sorted({"lv_" + "".join(r.choice("abcdefghijklmnopqrstuvwxyz") for _ in range(r.randint(1, 5))) for _ in range(r.randint(3, 6))})
+        r.shuffle(lv)
+        parts.append("<% " + "; ".join("%s = %d" % (n, i) for i, n in enumerate(lv)) + " %>")
+        parts.append('<%def name="seen()">K${[k for k in context.keys() if k.startswith("lv_")]}</%def>${seen()}')
     if r.random() < 0.5:
         # sibling defs nested in one def, the default of one calling another: they must be defined in an order that
         # does not vary (alphabetical, so that this one works)
